@@ -337,6 +337,11 @@ class CallMixin(ExecBase):
         a, b = Val.i(args[0].t), Val.i(args[1].t)
         return [("ok", p, sv_int(If(a <= b, a, b)))]
 
+    def b_object(s, p, args, kwargs, node):
+        if args or kwargs:
+            raise Unsupported("object() takes no arguments")
+        return [("ok", p, SV(p.new_obj("object"), ty="object"))]      # a fresh sentinel: distinct from everything that exists
+
     def b_hash(s, p, args, kwargs, node):
         return [("ok", p, sv_int(hash_of(args[0].t)))]      # not injective: equal objects share a hash
 
@@ -390,6 +395,13 @@ class CallMixin(ExecBase):
             return m(s, p, [recv] + list(args), kwargs, node)
         ty = recv.get("ty")
         h = getattr(s, "m_" + name, None)
+        if h is not None and ty is None and recv.get("special") is None and not recv.get("model") and not recv.get("fn"):
+            # builtin container methods: use the builtin class the path condition implies (e.g. after isinstance(x, dict))
+            for k_ in ("dict", "list", "tuple", "str", "deque"):
+                if not p.feasible([Not(is_exact_kind(recv.t, k_))]):
+                    recv = SV(recv.t, **dict(recv.st, ty=k_))
+                    ty = k_
+                    break
         if h is not None and (ty in ("list", "deque", "tuple", "dict", "str", None)):
             ok, bad = s.fork(p, Val.is_ref(recv.t))
             res = []
